@@ -93,6 +93,8 @@ def c18(ck, scratch, vh, prop, tier, seed, ev):
                                'by_variable': {('%s:%s' % k): d['n'] for k, d in verdicts.items()},
                                'unclassified_pairs': [[list(k), n] for k, n in unclassified.most_common(10)]})
     rejections, validated, devs = ck.validate(scratch, prop['trace'], files, known, ev, groups=1)
+    if (tier == 'thorough' or os.environ.get('VERIF_DEBUG_CONTROLS')) and not rejections:
+        ck.small_controls(scratch, prop['trace'], files, known, ev)
     classes = set()
     total = 0
     for fm in ev['families']:
